@@ -149,6 +149,121 @@ def kf_signature_c15(params, result):
     return None
 
 
+OP_CONFIGS_QUICK = [
+    dict(NH=3, NS=1, NOS=1, NP=1, NE=1, NPE=1, R=1, Uniform=True, AlphaVOne=False, RandomGoal=False),
+    dict(NH=3, NS=2, NOS=1, NP=1, NE=2, NPE=1, R=1, Uniform=False, AlphaVOne=False, RandomGoal=False),
+    dict(NH=3, NS=1, NOS=2, NP=1, NE=2, NPE=2, R=1, Uniform=False, AlphaVOne=False, RandomGoal=True),
+]
+OP_CONFIGS_THOROUGH = OP_CONFIGS_QUICK + [
+    dict(NH=3, NS=2, NOS=1, NP=2, NE=2, NPE=2, R=2, Uniform=True, AlphaVOne=False, RandomGoal=False),
+    dict(NH=3, NS=2, NOS=2, NP=1, NE=2, NPE=2, R=1, Uniform=False, AlphaVOne=False, RandomGoal=False),
+    dict(NH=4, NS=2, NOS=1, NP=1, NE=1, NPE=1, R=2, Uniform=False, AlphaVOne=False, RandomGoal=True),
+]
+OP_SIM_CONFIGS = [
+    dict(NH=4, NS=2, NOS=2, NP=2, NE=2, NPE=2, R=1, Uniform=False, AlphaVOne=False, RandomGoal=True),
+    dict(NH=5, NS=3, NOS=2, NP=2, NE=3, NPE=3, R=2, Uniform=True, AlphaVOne=False, RandomGoal=False),
+    dict(NH=6, NS=2, NOS=3, NP=1, NE=4, NPE=2, R=2, Uniform=False, AlphaVOne=False, RandomGoal=False),
+]
+OP_KF_CONFIG = dict(NH=4, NS=1, NOS=2, NP=1, NE=1, NPE=1, R=1, Uniform=False, AlphaVOne=True, RandomGoal=False)
+
+
+def _op_exhaustive(c):
+    from harness import gentape
+    wd = tlc.scratch_dir()
+    try:
+        r = gentape.exhaustive(c, wd, workers=4, timeout=3000)
+        viol = [ln for ln in r.out.splitlines() if "is violated" in ln]
+        bad = []
+        if viol:
+            bwd = os.path.join(wd, "bad")
+            os.makedirs(bwd)
+            bad, _ = gentape.bad_tapes(c, bwd)
+        return dict(cfg=c, states=r.distinct, transitions=r.generated, violated=viol, completed=r.completed,
+                    bad=bad[:3], tail=r.tail(12) if not r.completed and not viol else "")
+    finally:
+        shutil.rmtree(wd, ignore_errors=True)
+
+
+def _op_simulate(args):
+    from harness import gentape
+    c, n, seed = args
+    wd = tlc.scratch_dir()
+    try:
+        behs, r = gentape.simulate(c, n, seed, wd)
+        out = []
+        for b in behs:
+            st, x, ok = gentape.replay(c, b)
+            if st == "ok":
+                out.append(dict(status=st, conforms=ok, result=export_generated(x), params=gentape.params_of(c)))
+            else:
+                out.append(dict(status=st, conforms=False, msg=x, params=gentape.params_of(c),
+                                result=dict(ok=False, kind="raised" if st == "raised" else "mismatch", msg=x,
+                                            exc=x.split(":")[0])))
+        return dict(cfg=c, behaviours=out, states=r.generated, errors=r.errors[:2])
+    finally:
+        shutil.rmtree(wd, ignore_errors=True)
+
+
+def operational_stage(tier, seed, v, kfs):
+    """Generator.tla: every seed at once for tiny parameters (TLC, exhaustive) + model behaviours replayed into the
+    real generator.  Returns (extra GEN_FILE lines, coverage dict)."""
+    import concurrent.futures as cf
+    from harness import gentape
+    cfgs = OP_CONFIGS_QUICK if tier == "quick" else OP_CONFIGS_THOROUGH
+    nsim = 40 if tier == "quick" else 400
+    with cf.ProcessPoolExecutor(max_workers=4, mp_context=mp.get_context("fork")) as ex:
+        f_ex = [ex.submit(_op_exhaustive, c) for c in cfgs + [OP_KF_CONFIG]]
+        f_sim = [ex.submit(_op_simulate, (c, nsim, seed + i)) for i, c in enumerate(OP_SIM_CONFIGS)]
+        exh = [f.result() for f in f_ex]
+        sims = [f.result() for f in f_sim]
+    states = transitions = 0
+    notes = []
+    for e in exh:
+        states += e["states"]
+        transitions += e["transitions"]
+        c = e["cfg"]
+        if not e["violated"]:
+            if not e["completed"]:
+                v.machinery.append("Generator.tla did not complete for %s: %s" % (c, e["tail"]))
+            continue
+        # the model reaches a stuck / crashed / ill-formed state: only a fault the REAL generator reproduces
+        # along that tape is reported
+        reproduced = None
+        for b in e["bad"]:
+            st, msg = gentape.replay_bad(c, b["tape"])
+            if st in ("raised", "draw_bound"):
+                reproduced = (st, msg, b)
+                break
+        if reproduced is None:
+            notes.append("model of %s violates %s but the real generator does not reproduce it (DRIFT)" % (c, e["violated"][:1]))
+            continue
+        st, msg, b = reproduced
+        if c["AlphaVOne"] and "ZeroDivisionError" in msg and "KF_AlphaVOne" in kfs:
+            v.known.append(kfs["KF_AlphaVOne"]["what"])
+            continue
+        rp = os.path.join(common.REPLAY_DIR, "C15-tape-%s.json" % "-".join(str(c[k]) for k in sorted(c)))
+        os.makedirs(common.REPLAY_DIR, exist_ok=True)
+        with open(rp, "w") as fh:
+            json.dump(dict(params=gentape.params_of(c), tape=b["tape"], model=e["violated"], real=[st, msg]), fh)
+        v.violation("C15: for SOME seed the generator %s with parameters %s (reached in Generator.tla in phase %s and "
+                    "reproduced on the real generator along the model's draw tape): %s" % (
+                        "does not terminate" if st == "draw_bound" else "raises", gentape.params_of(c), b["phase"], msg), rp)
+    lines = []
+    nconf = nbeh = 0
+    for s in sims:
+        states += s["states"]
+        for b in s["behaviours"]:
+            nbeh += 1
+            nconf += 1 if b["conforms"] else 0
+            if b["status"] == "mismatch":
+                notes.append("real generator left the model's tape: %s" % b["msg"])
+                continue
+            lines.append((b["params"], b["result"]))
+    return lines, dict(operational_model_states=states, operational_model_transitions=transitions,
+                       operational_configs_exhaustive=len(exh), model_behaviours_replayed=nbeh,
+                       replays_equal_to_model=nconf, operational_notes=notes[:10])
+
+
 def check_c15(prop, tier, seed):
     v = Verdict(prop)
     t0 = time.time()
@@ -162,6 +277,11 @@ def check_c15(prop, tier, seed):
     import concurrent.futures as cf
     with cf.ProcessPoolExecutor(max_workers=14, mp_context=mp.get_context("fork")) as ex:   # non-daemonic workers
         results = list(ex.map(_gen_one, [p for _, p in plist], chunksize=4))
+    kfs0 = {k["signature"]: k for k in common.open_findings(prop)}
+    op_lines, op_cov = operational_stage(tier, seed, v, kfs0)
+    for j, (p_, r_) in enumerate(op_lines):
+        plist.append(("tape%d" % j, p_))
+        results.append(r_)
     wd = tlc.scratch_dir()
     try:
         tlc.prepare(wd)
@@ -195,10 +315,16 @@ def check_c15(prop, tier, seed):
         v.known = sorted(set(v.known))
         okn = sum(1 for x in results if x["ok"])
         distinct = len(set(json.dumps(params_record(p), sort_keys=True) for _, p in plist))
-        cov = dict(states=r.generated, transitions=r.generated, traces_validated_against_impl=len(plist),
+        cov = dict(states=r.generated + op_cov["operational_model_states"],
+                   transitions=r.generated + op_cov["operational_model_transitions"],
+                   traces_validated_against_impl=len(plist),
                    evaluations=len(plist) * 14, distinct_nontrivial=distinct, returned=okn,
-                   failed_clauses=dict(failed), known_findings_matched=len(v.known),
-                   rule="parameter sets = the nine benchmark sets x seeds + seeded draws from the documented domain "
+                   failed_clauses=dict(failed), known_findings_matched=len(v.known), **op_cov,
+                   rule="operational stage: Generator.tla (every draw a nondeterministic choice) is explored exhaustively "
+                        "for tiny parameter sets (never stuck, never crashed, finished run well formed and "
+                        "root-vulnerable: every seed at once) and its behaviours are replayed into the real "
+                        "generator through a scripted numpy.random; declarative stage: "
+                        "parameter sets = the nine benchmark sets x seeds + seeded draws from the documented domain "
                         "(all probability specifications, uniform / correlated, random_goal, alpha / lambda around 1, "
                         "restrictiveness 1..S+1, custom address bounds); each is given to the real generator under a "
                         "draw-count bound and a watchdog; TLC evaluates the 14 clauses of GenWellFormed on the export "
